@@ -6,15 +6,17 @@ PR == INSTANCE Props_Run
 
 EndRecord == [tid |-> P.tid, ci |-> ci, fi |-> fi, events |-> evlog, verdict |-> Verdict,
               status |-> [el \in 1..N |-> StatusOf(el)], hook_failed |-> hookFailed,
-              step_status |-> stepst, errmarks |-> cap.errmarks, nhooks |-> rt.hookN]
+              step_status |-> stepst, errmarks |-> cap.errmarks, nhooks |-> rt.hookN, escaped |-> rt.escaped]
 \* the finished behaviour in the row format of the property layer
-SpecRow == [prog |-> prog, cfg |-> cfg, skips |-> P.skips, hookcl |-> P.hookcl, events |-> evlog, base |-> [ran |-> FALSE],
-            end |-> [verdict |-> Verdict, ran |-> TRUE, status |-> [el \in 1..N |-> StatusOf(el)], hook_failed |-> hookFailed,
+SpecRow == [prog |-> prog, cfg |-> cfg, skips |-> P.skips, hookcl |-> P.hookcl, kbd |-> P.kbd, events |-> evlog, base |-> [ran |-> FALSE],
+            end |-> [verdict |-> Verdict, ran |-> ~rt.escaped, status |-> [el \in 1..N |-> StatusOf(el)], hook_failed |-> hookFailed,
                      step_status |-> stepst, eff |-> [el \in 1..N |-> <<>>], errmarks |-> cap.errmarks,
                      real_out |-> cap.rout, real_err |-> cap.rerr, user_log |-> cap.ulog]]
 \* every clause of every property holds on every behaviour of the design -- except the named defect families
 \* (a violation is printed, not raised, so that TLC goes on to explore -- and emit -- every behaviour; the check turns
 \*  each DESIGNVIOL line into a design-level violation of the owning property)
-PropsHold == rt.done => \A c \in (PR!ClausesMC(SpecRow) \ PR!KnownFamilies) : PrintT(<<"DESIGNVIOL", P.tid, ci, fi, c>>)
+\* (interrupted-hook cases: the run verdict only, see Props_Run!ClausesKbd)
+PropsHold == rt.done => \A c \in ((IF P.kbd THEN PR!ClausesKbd(SpecRow) ELSE PR!ClausesMC(SpecRow)) \ PR!KnownFamilies) :
+                           PrintT(<<"DESIGNVIOL", P.tid, ci, fi, c>>)
 Emit == rt.done => PrintT(<<"CASE", ToJson(EndRecord)>>)
 =============================================================================
